@@ -33,6 +33,7 @@ import inspect
 import itertools
 
 from pymemcache.client.base import Client
+from pymemcache.exceptions import MemcacheServerError
 from pymemcache.fallback import FallbackClient
 
 from vmc import runner, stacks
@@ -95,9 +96,21 @@ class Scripted:
             log.append((idx, name, seen_args, kwargs))
             if name in READS:
                 return answers[name]
+            if isinstance(wr, str) and wr.startswith("raise-"):
+                # a cache whose mutating call fails (only the primary is ever scripted this way)
+                if idx == 0:
+                    raise RAISERS[wr]()
+                return True
             return wr
 
         return method
+
+
+RAISERS = {
+    "raise-oserror": lambda: ConnectionRefusedError(111, "scripted: primary unreachable"),
+    "raise-timeout": lambda: TimeoutError("scripted: primary timed out"),
+    "raise-memcache": lambda: MemcacheServerError(b"scripted: out of memory"),
+}
 
 
 class DefaultingCache:
@@ -306,7 +319,7 @@ def domain(op, param, tier):
         return ["a", b"a"]
     if param == "value":
         if op in ("incr", "decr"):
-            return [1, 2 ** 64]
+            return [1, 2 ** 64, 0, -3]  # the caller's delta goes through as given, whatever its sign
         return [b"v", 0, None, "unique"] if tier == "quick" else [b"v", b"", 0, None, "s", "unique"]
     if param == "cas":
         return [b"17", 17]
@@ -364,10 +377,17 @@ def run_write_scripted(n, op, combo, style, wr):
     desc = (f"FallbackClient({n} caches).{op}(" + ", ".join(
         (f"{p}=" if style == "kw" else "") + short(v, 24) for p, v in given.items()) + ")")
     okey = ("scripted", op, n, tuple(p for p in params if p in given and p not in REQUIRED), style)
+    raising = isinstance(wr, str) and wr.startswith("raise-")
+    if raising:
+        desc += f" with a primary whose {op} raises {type(RAISERS[wr]()).__name__}"
+        okey = okey + (wr,)
     try:
         call_with(fc, op, params, vals, style)
     except Exception as e:  # noqa
-        return [(f"scripted|{op}|raises|{type(e).__name__}", f"{desc} raised {type(e).__name__}: {e}")], okey
+        # the primary's own failure may reach the caller (the statement does not say whether it has to);
+        # the write rule is judged on what the caches were asked either way
+        if not (raising and type(e) is type(RAISERS[wr]())):
+            return [(f"scripted|{op}|raises|{type(e).__name__}", f"{desc} raised {type(e).__name__}: {e}")], okey
     problems = []
     others = [e for e in log if e[0] != 0]
     if others:
@@ -708,7 +728,7 @@ def _worker(job, chk):
                                     "problems": [t for _, t in problems][:2]})
     elif mode == "swrite":
         for combo, style in write_cases(op, tier):
-            for wr in (True, False, None):
+            for wr in (True, False, None) + (tuple(RAISERS) if n > 1 else ()):
                 problems, key = run_write_scripted(n, op, combo, style, wr)
                 _record(chk, problems, key, {"mode": mode, "n": n, "op": op, "combo": list(combo), "style": style,
                                              "write_result": wr})
